@@ -767,6 +767,9 @@ pub fn gen_instance(rng: &mut Rng, p: &Profile) -> Inst {
     let (shunt_min, shunt_dh) = if p.non_transitive { (*rng.pick(&[1200u64, 1800, 2400]), 0) } else { *rng.pick(&[(0u64, 0u64), (0, 0), (0, 300), (0, 600), (300, 300), (600, 600), (600, 0)]) };
     let max_dist = if maint.is_empty() && rng.chance(50) {
         0
+    } else if !maint.is_empty() && rng.chance(8) {
+        // slots given but the optional `maintenance` parameter left out (documented: 0)
+        0
     } else if p.maint_heavy {
         // a fraction of the fleet's service distance, so that several tracks are allotted and
         // several maintained vehicles (= several rotation cycles) are needed
